@@ -8,19 +8,19 @@ tie   : T-gen (GetStartBucketIndex / GetNextBucketIndex / GetMaxProbe / UpdateMa
 oracle: std::map twin inside the harness (independent of the Coq model)."""
 import os, re
 
-GEN = ['gen_base.json', 'gen_policy.json', 'gen_limp4.json', 'gen_open2n2.json', 'gen_openn1.json', 'gen_open8.json']
+GEN = ['gen_open2n2w.json', 'gen_base.json', 'gen_policy.json', 'gen_limp4.json', 'gen_open2n2.json', 'gen_openn1.json', 'gen_open8.json']
 
 ITEMS = {'a': (4, 4, 0), 'b': (8, 4, 0), 'c': (8, 8, 0), 'd': (24, 8, 0), 'e': (40, 8, 0), 'f': (16, 16, 0), 'g': (1, 1, 0),
          'h': (2, 2, 0), 'n': (8, 4, 1), 'm': (24, 8, 1), 'x': (8, 4, 2), 'y': (40, 8, 2)}
 
 CONFIGS = {
-    'harness1': ['S.L4.b.f', 'S.L4.b.q', 'S.L4.d.p', 'M.L4.a.p', 'S.L1.c.q', 'S.L2.a.p', 'S.L2.n.q', 'M.L3.x.q', 'S.L3.g.f'],
+    'harness1': ['S.L4.b.f', 'S.L4.b.q', 'S.L4.d.p', 'M.L4.a.p', 'S.L1.c.q', 'S.L2.a.p', 'S.L2.n.q', 'M.L3.x.q', 'S.L3.g.f', 'B.L4.b.q', 'T.L4.b.q'],
     'harness2': ['S.LP8.c.q', 'S.LP8.b.f', 'M.LP4.a.q', 'S.LP3.d.p', 'S.LQ4.b.q', 'S.LQ2.c.f', 'M.LQ1.a.q', 'S.LF.b.q', 'M.LF.n.p',
                  'S.UP.b.q', 'M.UP.d.f', 'S.ON.b.q', 'S.ON.c.f', 'M.ON.a.p'],
     'harness3': ['S.O3.b.f', 'S.O3.b.q', 'M.O3.d.p', 'S.O2.a.p', 'S.O2.n.q', 'S.O1.c.q', 'M.O1.x.p', 'S.N3.b.q', 'M.N3.a.f',
                  'S.N1.c.q', 'S.N5.h.f'],
     'harness4': ['S.O8.b.f', 'S.O8.b.q', 'M.O8.a.q', 'S.O8.e.q', 'S.O8.d.p', 'S.O8.f.f', 'M.O8.y.q', 'S.L4.e.q', 'S.L4.f.p',
-                 'S.L4.h.f', 'M.L4.m.q', 'S.L4.x.q'],
+                 'S.L4.h.f', 'M.L4.m.q', 'S.L4.x.q', 'T.O8.b.q', 'B.O8.c.p'],
 }
 BIG = 2 ** 62
 
@@ -32,10 +32,11 @@ def params(name):
     part = (tr == 'p')
     if cont == 'S':
         isz, ial = SZ, AL
-    else:                                   # MapKeyValuePair<Key, uint32_t>
-        ial = max(AL, 4); isz = (SZ + 4 + ial - 1) // ial * ial
-    p = {'name': name, 'tagged': cont == 'M' or SZ >= 8, 'kmax': 2 ** (8 * min(4, SZ)), 'failinj': tr == 'q' and kind != 'ON',
-         'map': cont == 'M', 'nomem': kind[0] in 'ON'}
+    else:                                   # MapKeyValuePair<Key, Value>: uint32_t / BigVal (24, align 4) / StrVal (32, align 8)
+        vsz, val = {'M': (4, 4), 'B': (24, 4), 'T': (32, 8)}[cont]
+        ial = max(AL, val); isz = ((SZ + val - 1) // val * val + vsz + ial - 1) // ial * ial
+    p = {'name': name, 'tagged': cont != 'S' or SZ >= 8, 'kmax': 2 ** (8 * min(4, SZ)), 'failinj': tr == 'q' and kind != 'ON',
+         'map': cont != 'S', 'nomem': kind[0] in 'ON'}
     m = re.match(r'([A-Z]+)(\d*)$', kind); fam, N = m.group(1), int(m.group(2) or 0)
     if fam == 'L':
         part1 = part and isz >= 4
@@ -83,7 +84,6 @@ def calc_capacity(p, log):
 def min_log_start(p):
     l = 0
     while calc_capacity(p, l) < 1: l += 1
-    if p['nomem'] and p['pol'] == 0 and p['cap'] == 1: l = max(l, 2)   # BucketOne: an overloaded 2-bucket table cannot grow (MOMO_CHECK(newCapacity > mCount))
     return l
 
 
@@ -123,7 +123,7 @@ def gen_script(r, p, nops, style):
             elif y < 12: ops.append('Q')
             elif y < 24 and p['tagged']: ops.append('K %d %d' % (k, val()))
             elif y < 34:
-                m = r.range(2, 5); q = r.below(m); ops.append('D %d %d' % (m, q)); live = set(z for z in live if z % m != q)
+                m = r.range(2, 5); q = r.below(m); ops.append('%s %d %d' % (r.choice(['D', 'L']), m, q)); live = set(z for z in live if z % m != q)
             elif y < 44:
                 n = len(live) + r.choice([0, 1, 2, 5, 17, 40, 100])
                 if style == 'fail' and p['failinj'] and r.chance(1, 2): ops.append('W %d %d' % (n, r.below(max(1, len(live) + 1))))
@@ -223,7 +223,7 @@ def leaf_cases(ctx, scale):
     for i in range(600 * scale):
         log = r.range(0, 40); bc = 2 ** log
         hc = r.choice([r.below(2 ** 64), r.below(bc * 4), 2 ** 64 - 1, 0, bc - 1, bc])
-        cases.append('sh %d %d' % (r.below(3), r.choice([r.below(2 ** 64), 2 ** 64 - 1, 0, r.below(2 ** 40), 2 ** 63, (2 ** 57) * r.below(128) + r.below(2 ** 57)])))
+        cases.append('sh %d %d' % (r.below(4), r.choice([r.below(2 ** 64), 2 ** 64 - 1, 0, r.below(2 ** 40), 2 ** 63, (2 ** 57) * r.below(128) + r.below(2 ** 57)])))
         cases.append('idx %d %d %d %d %d' % (r.below(4), hc, log, r.choice([r.below(bc), bc - 1, 0]), r.choice([r.below(bc), 1, bc - 1])))
     return cases
 
@@ -356,7 +356,7 @@ def first_diff(a, b):
 
 
 RULE = ('scripts = aimed random op scripts (insert / add-at-position / find / remove by key, position, predicate / extract+reinsert / '
-        'set value + ResetKey / Reserve / Clear / copy / move-assign / swap / MergeTo / extract into and insert from a holder / insert with refused allocation / failure-injected relocations; + aimed families: long constant-hash chains, stored-hash-part buckets removed slot by slot then grown) over 46 container '
+        'set value + ResetKey / Reserve / Clear / copy / move-assign / swap / MergeTo / extract into and insert from a holder / insert with refused allocation / failure-injected relocations; + aimed families: long constant-hash chains, stored-hash-part buckets removed slot by slot then grown) over 50 container '
         'configurations (17 bucket kinds x set/map x item size, alignment, category x hash-code-part getter) x 6 hash distributions x '
         'start sizes from the smallest legal table; every script ends with count, full traversal and the internal shape; '
         'distinct = distinct case line; non-trivial = the table grew at least once or reached a multi-generation state')
